@@ -76,6 +76,9 @@ func forkFromImages(r *Run, res *Result, ims []Image, rng *RNG) {
 		if pi < 0 || pi >= len(ims) || r.recovered[pi] == nil {
 			continue
 		}
+		if overTime(res) {
+			break
+		}
 		im := &ims[pi]
 		rec := r.recovered[pi]
 		var tape *Tape
